@@ -6,7 +6,7 @@ func init() {
 		Rule:        "cases = generated bitmaps biased to the shapes named by the property (elements in chunks other than the first, adjacent full chunks, chunks full to their upper or lower edge, gaps between keys, keys 0 / 0xFFFE / 0xFFFF, all chunk kinds, 11 storage forms) x targets {every interval end +-1, chunk edges +-1, inside absent chunks, 0, 2^32-1, random}; NextValue/PreviousValue/NextAbsentValue/PreviousAbsentValue compared with the model. Plus ALL subsets of a boundary domain x all targets of the domain +-1. Non-trivial: non-empty bitmap; distinct = hash(set, form).",
 		Assumptions: []string{"interval-set model validated by selfcheck"},
 		Units: []Unit{
-			{Name: "neighbours", Quick: 4000, Thorough: 200000, Run: c15Neighbours},
+			{Name: "neighbours", Quick: 60000, Thorough: 3000000, Run: c15Neighbours},
 			{Name: "exhaustive-subsets", ExhaustiveN: func(string) int { return 256 * 3 }, RunIndexed: c15Exh},
 		},
 	})
